@@ -12,7 +12,9 @@ AddSteps(e) == {i \in 1..Len(e.steps) : e.steps[i].k \in {"AddPeer", "AddLightPe
 RemoveSteps(e) == {i \in 1..Len(e.steps) : e.steps[i].k = "RemovePeer"}
 LeaderSteps(e) == {i \in 1..Len(e.steps) : e.steps[i].k = "TransferLeader"}
 UpStore(e, s) == Known(e, s) /\ LET st == StoreRec(e, s) IN st.state = "Up" /\ ~st.down
-AcceptsLeader(e, s) == UpStore(e, s) /\ ~StoreRec(e, s).reject
+(* a store whose leader transfers are paused (evict-leader / grant-leader at work on it) takes no leader, except from the *)
+(* grant-leader scheduler that paused it itself                                                                          *)
+AcceptsLeader(e, s) == UpStore(e, s) /\ ~StoreRec(e, s).reject /\ (~StoreRec(e, s).paused \/ e.src = "grant-leader")
 
 Verdict11(e) ==
   LET r0 == RegionOf(e.origin, e.leader)
